@@ -176,7 +176,8 @@ Section HM3.
       exists nd', nth_error ns' i = Some nd' /\ same_kvf nd nd'.
 
   Lemma hm_rehash_ok : forall bcount m, KU (hnodes m) -> hsize m = length (filter nfilled (hnodes m)) ->
-    hm_rehash K V kdflt vdflt keqb khash bcount m = Trap TrapOverflow \/
+    (hm_rehash K V kdflt vdflt keqb khash bcount m = Trap TrapOverflow /\
+     (2 ^ 62 < Z.of_nat (Nat.max bcount (ceilidiv (hsize m * 100) HM_MAXLF_n)))%Z) \/
     exists m', hm_rehash K V kdflt vdflt keqb khash bcount m = Ok m' /\ hm_inv K V keqb khash m' /\
       hm_abs K V m' = hm_abs K V m /\ hsize m' = hsize m /\ bcount <= length (hbuckets m') /\
       (0 < hsize m -> 0 < length (hbuckets m')) /\
@@ -186,7 +187,12 @@ Section HM3.
     pose proof hm_maxlf_pos as LFpos.
     set (minb := ceilidiv (hsize m * 100) HM_MAXLF_n).
     set (bc0 := if bcount <? minb then minb else bcount).
-    destruct (Z.ltb_spec (roundpow2 (Z.of_nat bc0)) (Z.of_nat bc0)) as [|Hrp]; [left; reflexivity|right].
+    destruct (Z.ltb_spec (roundpow2 (Z.of_nat bc0)) (Z.of_nat bc0)) as [Hov|Hrp].
+    { left. split; [reflexivity|].
+      assert (bc0 = Nat.max bcount minb) as -> by (unfold bc0; destruct (Nat.ltb_spec bcount minb); lia).
+      destruct (Z_lt_le_dec (2 ^ 62) (Z.of_nat (Nat.max bcount minb))) as [|Hsm]; [assumption|].
+      pose proof (roundpow2_ge (Z.of_nat (Nat.max bcount minb)) ltac:(lia)). lia. }
+    right.
     set (bc := Z.to_nat (roundpow2 (Z.of_nat bc0))).
     assert (bc0 <= bc) as Hbc by (unfold bc; lia).
     assert (minb <= bc0 /\ bcount <= bc0) as [Hmin Hcnt] by (unfold bc0; destruct (Nat.ltb_spec bcount minb); lia).
